@@ -18,6 +18,7 @@ func init() {
 			"PV-PAIR groupEntries: the stream key is LabelSet.String() (injective, order-independent), so entries with different rewritten label sets never share a stream; rename deletes the source in the iteration that read it",
 			"PV-API label regexps are compiled anchored; CH-MAP string matcher table (=~ is a regexp match, case flags included)",
 			"LP-PIPE BuildPipeline: one processor per stage, in order (no reordering of filters across rewriting stages)",
+			"PV-WHOLE LabelSet.Range visits every label; PV-ROLE template functions bound to strings.* carry that function's name",
 		},
 		NotDecided: []string{"what text/template and sprig functions compute", "whether ansiPattern matches exactly the ANSI colour sequences (regexp semantics)"},
 		Rules: func(r *Run) {
@@ -46,6 +47,8 @@ func init() {
 			ruleLabelRegexAnchoring(r)
 			ruleCHBuilders(r) // the value matchers of drop/keep implement their operator
 			ruleLPPipe(r)     // the stages run in the order they were written
+			ruleLabelSetRangeWhole(r)
+			ruleTemplateStringsByName(r)
 		},
 	})
 }
